@@ -199,14 +199,11 @@ def handleTopK (c : Case) (hdr : List String) : CaseOut := Id.run do
   let m := TopK.topK S xs k
   let model := #[s!"D out={csvI m} n={m.length}"]
   let stats := [("nontrivial", bit (k ≥ 1 && xs.length ≥ 2 * k)), stat "topk" 1, stat "n" xs.length, stat "k" k,
-                stat "k_gt_len" (if k > xs.length then 1 else 0)]
+                stat "k_gt_len" (if k > xs.length then 1 else 0),
+                stat "k_huge" (if k ≥ 2 ^ 31 then 1 else 0)]
   let expected := (Sorting.isort xs).take k
   match implBroken c.impl with
-  | some w =>
-    -- top_k reserves room for 2k items before it looks at the input: for k far beyond the input length
-    -- the allocation fails (abort / capacity overflow / 2*k overflow) although the answer is just sort(xs)
-    let tag := if k ≥ 2 ^ 31 && xs.length < k then "[D19-topk-2k-allocation] " else ""
-    return { model := model, verdict := .fail s!"{tag}top_k of {xs.length} items, k={k}: implementation {w}", stats := stats }
+  | some w => return { model := model, verdict := .fail s!"top_k of {xs.length} items, k={k}: implementation {w}", stats := stats }
   | none => pure ()
   let line := c.impl.getD 0 ""
   match (field line "out").bind parseCsvI with
